@@ -27,7 +27,7 @@ use std::time::Duration;
 pub static INFO: PropInfo = PropInfo {
     id: "C17",
     level: "fault_enumeration",
-    rule: "two kinds of executions. (a) TAMPER (enumerated; exhaustive=true refers to this: for every sample datagram ALL single-bit positions and ALL truncation lengths 0..len-1 are presented): per run one genuine sample of every datagram kind (request, challenge, response, keep-alive both directions, payload both directions with a seeded length 0..1300, denied, disconnect both directions) is captured from a live handshake/session and every modification is presented to the endpoint in exactly the state in which the genuine datagram is accepted (proved afterwards by presenting the genuine one and seeing its effect); each must produce no result and leave the observable snapshot identical (server: client ids, addresses, user data, time since last packet, half-open set; client: state, reason, time since last packet); for the unsealed request the prefix byte's unused high nibble is excluded. Every sealed sample must also fail to open under another key and under another protocol id (crate codec) and a request must be ignored by servers with another private key / protocol id. Token: every single-bit flip of the 1024 sealed bytes, the protocol id and the expiry of a serialized ConnectToken goes through ConnectToken::read -> NetcodeClient::new -> update -> server.process_packet and through the private-token decoder and must yield neither a decoded token nor a reply nor a half-open entry. (b) NONCE TABLE: honest multi-client histories against one server (1-3 slots, 3-7 clients, seeded loss and duplication so that requests are retried and re-challenged, denials on a full server, keep-alives, payloads both ways, disconnects by either side, reconnects with fresh tokens, fail-over to a second server address, tokens listing two addresses of the same server so that a client denied or unanswered at the first is admitted at the second with the same token - the server side of a token stops being recorded once the server opens a second session for it): every datagram returned by any NetcodeServer / NetcodeClient call is attributed to a key by opening it with the token keys the harness minted, and entered as (key, sequence from the prefix) -> bytes; two different byte strings under one (key, sequence) refute the property, as do two different challenge blobs with one token_sequence; every recorded datagram is also opened with an independent ChaCha20-Poly1305 (netcode 1.02 framing: nonce = 4 zero bytes || LE sequence) to establish the nonce it was REALLY sealed with (normally that of its announced sequence, otherwise searched among truncations of it and the other sequences of that key) and entered in a second ledger keyed by (key bytes, real nonce) - both directions and all sessions share it, so equal keys in two roles are a reuse; a third of the parties hold a token of the library's own generator; a party may give up while it is still requesting or responding (NetcodeClient::disconnect during the handshake seals a Disconnect under the key of the responses already sent). In (a) the server's challenge token is treated as sealed data of its own: echoed in a response that is correctly sealed under the session key, with one of its 2400 bits flipped (all bits of its first 8 and last 40 bytes, 120 sampled others) or under a neighbouring token sequence, it must not be accepted. One evaluation = one presented modification (a) or one recorded datagram (b); non-trivial = oracle evaluated on it; distinct = (sample hash, modification) resp. (history seed, datagram hash).",
+    rule: "two kinds of executions. (a) TAMPER (enumerated; exhaustive=true refers to this: for every sample datagram ALL single-bit positions and ALL truncation lengths 0..len-1 are presented): per run one genuine sample of every datagram kind (request, challenge, response, keep-alive both directions, payload both directions with a seeded length 0..1300, denied, disconnect both directions) is captured from a live handshake/session and every modification is presented to the endpoint in exactly the state in which the genuine datagram is accepted (proved afterwards by presenting the genuine one and seeing its effect); each must produce no result and leave the observable snapshot identical (server: client ids, addresses, user data, time since last packet, half-open set; client: state, reason, time since last packet); for the unsealed request the prefix byte's unused high nibble is excluded. Every sealed sample must also fail to open under another key and under another protocol id (crate codec) and a request must be ignored by servers with another private key / protocol id. Token: every single-bit flip of the 1024 sealed bytes, the protocol id and the expiry of a serialized ConnectToken goes through ConnectToken::read -> NetcodeClient::new -> update -> server.process_packet and through the private-token decoder and must yield neither a decoded token nor a reply nor a half-open entry. (b) NONCE TABLE: honest multi-client histories against one server (1-3 slots, 3-7 clients, seeded loss and duplication so that requests are retried and re-challenged, denials on a full server, keep-alives, payloads both ways, disconnects by either side, reconnects with fresh tokens, fail-over to a second server address, tokens listing two addresses of the same server so that a client denied or unanswered at the first is admitted at the second with the same token - the server side of a token stops being recorded once the server opens a second session for it): every datagram returned by any NetcodeServer / NetcodeClient call is attributed to a key by opening it with the token keys the harness minted, and entered as (key, sequence from the prefix) -> bytes; two different byte strings under one (key, sequence) refute the property, as do two different challenge blobs with one token_sequence; every recorded datagram is also opened with an independent ChaCha20-Poly1305 (netcode 1.02 framing: nonce = 4 zero bytes || LE sequence) to establish the nonce it was REALLY sealed with (normally that of its announced sequence, otherwise searched among truncations of it and the other sequences of that key) and entered in a second ledger keyed by (key bytes, real nonce) - both directions and all sessions share it, so equal keys in two roles are a reuse; a third of the parties hold a token of the library's own generator; a party may give up while it is still requesting or responding (NetcodeClient::disconnect during the handshake seals a Disconnect under the key of the responses already sent). In (a) the server's challenge token is treated as sealed data of its own: echoed in a response that is correctly sealed under the session key, with one of its 2400 bits flipped (all bits of its first 8 and last 40 bytes, 120 sampled others) or under a neighbouring token sequence, it must not be accepted. One evaluation = one presented modification (a) or one recorded datagram (b); non-trivial = oracle evaluated on it; distinct = (sample hash, modification) resp. (history seed, datagram hash). One execution in 24 is a LONG SESSION: one honest pair over a perfect link exchanging 270-3000 (one in eight: 66 000) sealed datagrams per direction, payloads of 0-40 bytes interleaved with the endpoints' own keep-alives, every one entered in both ledgers - the counters cross 2^8 and 2^16.",
     assumptions: &[
         "ChaCha20-Poly1305 / XChaCha20-Poly1305 themselves are not under test; the nonce is assumed to be the sequence number announced in the prefix (that it really is bound is what the bit flips of the sequence bytes test)",
         "one connect token = one connection attempt and the session that follows; reconnects use fresh tokens (reuse of a token for a second session is outside the statement)",
